@@ -132,8 +132,11 @@ type Machine struct {
 	fmtOpaque   int
 	timerRace   bool
 	fixedClock  bool
+	preemptOff  bool
 	clockTick   uint64
 	posCount    map[string]int
+	entryCount  map[*ssa.Function]int
+	syncSeq     int
 	delays      []DelaySite
 }
 
@@ -174,6 +177,7 @@ type Violation struct {
 type DelaySite struct {
 	File string `json:"file"`
 	Line int    `json:"line"`
+	Off  int    `json:"off,omitempty"` // byte offset of a function body's opening brace: the delay goes right after it (Line is then informative only)
 	Occ  int    `json:"occ"`
 	Ms   int    `json:"ms"`
 }
@@ -363,6 +367,7 @@ func (m *Machine) callFn(caller *frame, fn *ssa.Function, args []Value, env []Va
 		m.Stats.Funcs[name]++
 	}
 	info := m.info(fn)
+	m.noteEntry(fn)
 	fr := &frame{fn: fn, info: info, regs: make([]Value, info.n), env: env, caller: caller, callPos: m.curPos}
 	for i, p := range fn.Params {
 		fr.regs[info.idx[p]] = args[i]
